@@ -15,6 +15,28 @@ Definition peq (x y : pos) : Prop := beq (fst x) (fst y) /\ snd x = snd y.
 Lemma beq_hash b b' sd stp : WFb b -> WFb b' -> beq b b' -> z_from_piece_board b sd stp = z_from_piece_board b' sd stp.
 Proof. intros W W' E. rewrite !from_scratch_eq by assumption. f_equal. now apply board_part_ext. Qed.
 
+(* decidable form of peq *)
+Definition peqb (x y : pos) : bool :=
+  forallb (fun i => cell_eqb (cell (fst x) i) (cell (fst y) i)) sq64 && Bool.eqb (snd x) (snd y).
+
+Lemma cell_eqb_refl (x : option (bool * piece)) : cell_eqb x x = true.
+Proof. destruct x as [[[] []]|]; reflexivity. Qed.
+
+Lemma peqb_true x y : peq x y -> peqb x y = true.
+Proof.
+  intros [A B]. unfold peqb. apply andb_true_intro. split.
+  - apply forallb_forall. intros i Hi. apply In_sq64 in Hi. rewrite (A i Hi). apply cell_eqb_refl.
+  - rewrite B. destruct (snd y); reflexivity.
+Qed.
+
+Lemma peqb_peq x y : peqb x y = true -> peq x y.
+Proof.
+  unfold peqb. intros H. apply andb_prop in H. destruct H as [A B]. split.
+  - intros i Hi. apply cell_eqb_eq. exact (forall_sq64 _ A i Hi).
+  - now apply eqb_prop.
+Qed.
+
+
 (* ghost: G = exact turn-start positions since the last capture (newest first, reset at a capture);
           b0 = the board at the start of the current turn *)
 Record RepInv (s : state) (pp : play) (G : list pos) (b0 : pbs) : Prop := {
